@@ -778,7 +778,7 @@ is_format_lzma(void)
 		uncompressed_size |= (uint64_t)(in_buf.u8[5 + i]) << (i * 8);
 
 	if (uncompressed_size != UINT64_MAX
-			&& uncompressed_size > (UINT64_C(1) << 38))
+			&& uncompressed_size >= (UINT64_C(1) << 38))
 		return false;
 
 	return true;
